@@ -298,7 +298,13 @@ pub fn suite_hashkey(dir: &str, seed: u64, thorough: bool, st: &mut Stats) {
         let mut res = String::new();
         for _ in 0..rng.range(1, 10) {
             let h = rng.pick(&pool).clone();
-            match rng.below(3) {
+            // keys of one index all have the same effective length (as in any index the tool builds: truncated digests);
+            // `add_chunk` goes through `HashMap::entry` with `HashSum`'s prefix equality and full-slice hash, so what
+            // it does with a key that is a proper prefix of another one depends on the map's random hash seed.
+            // Shorter hashes are therefore only used as probes (contains / remove compare exact truncated bytes).
+            let op = rng.below(3);
+            let op = if op == 0 && h.len() < l.min(64) { 1 } else { op };
+            match op {
                 0 => {
                     let size = rng.range(1, 50) as usize;
                     let offs: Vec<u64> = (0..rng.range(1, 3)).map(|_| rng.below(100)).collect();
